@@ -182,11 +182,17 @@ class Blake(ExactSolver):
             dbg_arg = kwargs['blake_debug']
 
         # Calc. full elastic param set.
+        # Only the elastic params are handed on (they are all that
+        # set_elastic_params() reads), so that any other name reaches the
+        # parent-class constructor below, which reports invalid ones with a
+        # ValueError, instead of colliding with an argument name here.
+        elas_kwargs = dict((ky, kwargs[ky]) for ky in Blake.elas_prm_names
+                           if ky in kwargs)
         elas_param_vals = (
             elas_prms_mod.set_elastic_params(
                 Blake.elas_prm_names, Blake.elas_prm_dflt_vals,
                 Blake.elas_prm_order, elas_dflt, dbg_arg,
-                **kwargs))
+                **elas_kwargs))
         kwargs.update(elas_param_vals)
         self.elas_param_values.update(elas_param_vals)
 
